@@ -258,7 +258,10 @@ impl Linker {
 
         let loaded = file_loader.load_inputs::<P>(&args.common().inputs, args, &mut plugin);
 
-        args.common().save_dir.finish(file_loader, args)?;
+        if args.common().save_dir.finish(file_loader, args)? {
+            // We were asked to only populate the save directory.
+            return Ok(LinkerOutput { layout: None });
+        }
 
         let loaded = loaded?;
 
